@@ -10,6 +10,7 @@
                         specifications are fresh, bases are live, the root is never rebased, only
                         leaves die, and the base graph stays acyclic ([acyclicb])
      reach g S T        T is reachable from S through one or more __bases__ steps of graph g
+     acyclic g          g has a rank function (every base strictly lower)
      fresh_sro          the order a freshly built graph of that shape has (every base first)
    Every theorem is for ALL histories and ALL notification orders that keep the same elements. *)
 From Coq Require Import List Arith Bool.
@@ -117,6 +118,23 @@ Print Assumptions C02_notification_order_irrelevant.
 Theorem C02_acyclicb_sound : forall g, acyclicb g = true -> forall x, ~ reach g x x.
 Proof. exact acyclicb_sound_lemma. Qed.
 Print Assumptions C02_acyclicb_sound.
+
+(* ... and nothing else: a graph that has a rank function at all passes (its nodes being bound) *)
+Theorem C02_acyclicb_complete : forall g, acyclic g ->
+  (forall x b, In x (map fst g) -> In b (bases g x) -> In b (map fst g)) -> acyclicb g = true.
+Proof. exact acyclicb_complete_lemma. Qed.
+Print Assumptions C02_acyclicb_complete.
+
+(* so, in every reachable state, [hist_ok] admits EVERY operation of the right shape (fresh new
+   node / live bases / root untouched / only leaves die) whose resulting base graph is acyclic:
+   the theorems above are about all acyclic histories, not about a convenient subset *)
+Theorem C02_op_ok_complete : forall reorder : list node -> list node,
+  (forall l y, In y (reorder l) <-> In y l) ->
+  forall ops, hist_ok reorder init ops = true ->
+  let st := fold_left (step reorder) ops init in
+  forall o, shape_ok st o = true -> acyclic (next_graph st o) -> op_ok st o = true.
+Proof. exact op_ok_complete_lemma. Qed.
+Print Assumptions C02_op_ok_complete.
 
 (* ---- non-vacuity: a diamond 4(2,3), 2(1), 3(1), 1(root) with a class-like 5(4) and an
    instance-like 6(5,7) below it; then the TOP of the diamond is rebased onto a new interface 8,
